@@ -250,7 +250,7 @@ func c06(w *core.World, r *core.Report) {
 				if !reach[f] || f.Signature.Recv() == nil || core.TypeKey(f.Signature.Recv().Type()) != kTM {
 					continue
 				}
-				for _, c := range core.CallsTo(f, kRollbackIface) {
+				for _, c := range core.OwnCallsTo(f, kRollbackIface) {
 					after, tr := core.AlwaysAfter(c, func(in ssa.Instruction) bool {
 						if st, ok := in.(*ssa.Store); ok {
 							if fa, ok := st.Addr.(*ssa.FieldAddr); ok && core.FieldKey(fa) == kTMSlot && core.IsNilConst(st.Val) {
@@ -306,11 +306,11 @@ func ruleTryLockPair(w *core.World, r *core.Report) {
 		if f.Pkg == nil || f.Pkg.Pkg.Path() != core.Module+"/pkg/datastore" {
 			continue
 		}
-		for _, c := range core.CallsTo(f, "sync.Mutex.TryLock") {
+		for _, c := range core.OwnCallsTo(f, "sync.Mutex.TryLock") {
 			cls := core.FieldOf(core.CallRecv(c))
 			site := core.Site(f, "TryLock %s", cls)
 			var def ssa.CallInstruction
-			for _, d := range core.CallsTo(f, "sync.Mutex.Unlock") {
+			for _, d := range core.OwnCallsTo(f, "sync.Mutex.Unlock") {
 				if _, isDefer := d.(*ssa.Defer); isDefer && core.FieldOf(core.CallRecv(d)) == cls && guardedByThisBool(d, c.(*ssa.Call), true) {
 					def = d
 				}
@@ -320,7 +320,7 @@ func ruleTryLockPair(w *core.World, r *core.Report) {
 				continue
 			}
 			bad := ""
-			for _, o := range core.Calls(f) {
+			for _, o := range core.OwnCalls(f) {
 				if o == def || o == c {
 					continue
 				}
